@@ -57,7 +57,8 @@ def run(chk: core.Check) -> None:
         "tables drawn as run-length encodings (repeated rows / cells / columns, ragged rows), optionally after cache-filling reads; every getter "
         "of {get_cell, get_row, get_cells, get_rows, traverse, rows, cells, get_column, get_columns, traverse_columns, get_column_cells, Row.get_cell, "
         "Row.traverse, Row.cells} with tuple / string / ranged / negative / outside coordinates; each returned object is checked for its coordinates and "
-        "repeat count, then mutated in one of 4-5 ways and the table serialisation is compared byte for byte. non-trivial = the target lies in a run of "
+        "repeat count, then mutated in one of 4-5 ways and the table serialisation is compared byte for byte; the generators (traverse, Row.traverse, "
+        "traverse_columns, with and without range) are also consumed lazily, each yielded object being modified before the next is asked for. non-trivial = the target lies in a run of "
         "repeat >= 2, the read is ranged or outside; distinct by (encoding, getter, coordinates)"
     )
     reqs = []
@@ -176,6 +177,42 @@ def run(chk: core.Check) -> None:
                 xc = rng.randrange(W)
                 cc = t.get_column_cells(xc)
                 check("get_column_cells", cc, [(xc, i) for i in range(len(cc))], False, {"x": xc})
+            # --- lazy consumption: the caller modifies each yielded object BEFORE asking for the next one (the documented
+            #     "copies are returned, use set_row() to push them back" loop); what is yielded later must not depend on it
+            def lazy(getter, make_iter, case):
+                ref = [(o.serialize(), getattr(o, "x", None), getattr(o, "y", None)) for o in make_iter()]
+                chk.count("getter", getter + " (lazy)")
+                chk.case((repr(rle), getter, "lazy", repr(case)), nontrivial=True)
+                it = iter(make_iter())
+                for i, (exp, ex, ey) in enumerate(ref):
+                    try:
+                        obj = next(it)
+                    except StopIteration:
+                        chk.fail({**rle, "getter": getter, **case, "index": i}, f"{getter}: consumed lazily with modifications, the iteration ends early")
+                        return
+                    if (obj.serialize(), getattr(obj, "x", None), getattr(obj, "y", None)) != (exp, ex, ey):
+                        chk.fail({**rle, "getter": getter, **case, "index": i, "yielded": obj.serialize(), "untouched_pass_yields": exp},
+                                 f"{getter}: after the caller modified an earlier yielded object, a later one is not what an untouched traversal yields")
+                        return
+                    mutate(obj, rng)
+                    if t.serialize() != base:
+                        chk.fail({**rle, "getter": getter, **case, "index": i}, f"{getter}: modifying a yielded object changed the table")
+                        return
+
+            lazy("traverse", lambda: t.traverse(), {})
+            if H:
+                y0 = rng.randrange(H); y1 = rng.randrange(y0, H)
+                lazy("traverse(start, end)", lambda: t.traverse(y0, y1), {"range": (y0, y1)})
+                yl = rng.randrange(H)
+                lazy("Row.traverse", lambda: t.get_row(yl, clone=False).traverse(), {"y": yl})
+                rwl = t.get_row(yl).width
+                if rwl:
+                    s1 = rng.randrange(rwl); e1 = rng.randrange(s1, rwl)
+                    lazy("Row.traverse(start, end)", lambda: t.get_row(yl, clone=False).traverse(start=s1, end=e1), {"y": yl, "range": (s1, e1)})
+            lazy("traverse_columns", lambda: t.traverse_columns(), {})
+            if W:
+                x2 = rng.randrange(W); x3 = rng.randrange(x2, W)
+                lazy("traverse_columns(start, end)", lambda: t.traverse_columns(x2, x3), {"range": (x2, x3)})
             # --- Row level ---
             if H:
                 y = rng.randrange(H)
